@@ -180,6 +180,50 @@ func c19Schemas() []func() *c19Schema {
 			return s
 		},
 		func() *c19Schema {
+			s := &c19Schema{name: "Slice(String.PostTransform(mutate element)).Default([a b]) — no PostTransform on the slice itself"}
+			def := []string{"a", "b"}
+			own(&s.owned, "slice default", def)
+			sc := z.Slice(z.String().PostTransform(func(p any, ctx z.Ctx) error { *(p.(*string)) += "!"; return nil })).Default(def)
+			s.events = []c19Event{
+				{"Validate(nil) default taken", func() (string, any) { var d []string; m := sc.Validate(&d); return c19Obs(m, d), d }},
+				{"Validate(empty) default taken", func() (string, any) { d := []string{}; m := sc.Validate(&d); return c19Obs(m, d), d }},
+				{"Parse(nil) default taken", func() (string, any) { var d []string; m := sc.Parse(nil, &d); return c19Obs(m, d), d }},
+			}
+			return s
+		},
+		func() *c19Schema {
+			s := &c19Schema{name: "Struct{l: Slice(Int).Default([1 2 3])}.PostTransform(mutate l) and plain Slice(Int).Default with caller-side mutation"}
+			def := []int{1, 2, 3}
+			def2 := []int{7, 8}
+			own(&s.owned, "slice default in struct", def)
+			own(&s.owned, "plain slice default", def2)
+			type D struct{ L []int }
+			sc := z.Struct(z.Schema{"l": z.Slice(z.Int()).Default(def)}).PostTransform(func(p any, ctx z.Ctx) error {
+				d := p.(*D)
+				for i := range d.L {
+					d.L[i] = -1
+				}
+				return nil
+			})
+			plain := z.Slice(z.Int()).Default(def2)
+			s.events = []c19Event{
+				{"Struct.Validate(zero) default taken, struct PostTransform mutates l", func() (string, any) { var d D; m := sc.Validate(&d); return c19Obs(m, d), d.L }},
+				{"Struct.Parse({}) default taken", func() (string, any) { var d D; m := sc.Parse(map[string]any{}, &d); return c19Obs(m, d), d.L }},
+				{"plain Slice.Validate(nil) default taken, caller then writes into the result", func() (string, any) {
+					var d []int
+					m := plain.Validate(&d)
+					o := c19Obs(m, d)
+					cp := append([]int(nil), d...)
+					for i := range d {
+						d[i] = 99 // the caller owns the validated value
+					}
+					return o, cp
+				}},
+				{"plain Slice.Validate(nil): aliasing only", func() (string, any) { var d []int; m := plain.Validate(&d); return c19Obs(m, d), d }},
+			}
+			return s
+		},
+		func() *c19Schema {
 			s := &c19Schema{name: "Custom[[]int] whose function mutates its argument"}
 			sc := z.CustomFunc(func(p *[]int, ctx z.Ctx) bool {
 				for i := range *p {
@@ -333,7 +377,7 @@ func init() {
 		ID:    "C19",
 		Rule:  "one execution = one sequence of ≤depth calls (Parse/Validate, absent/present inputs given as maps, []any, typed slices, structs, pointers) on ONE schema object whose PostTransforms overwrite and append to their destination; after every call: deep snapshot (incl. hidden capacity) of every value handed to a builder (slice/nested defaults, OneOf lists, Contains params) and of every input is unchanged, the destination shares no backing array with them, and a repeated call observes exactly what its first occurrence observed; every sequence is non-trivial; distinct = distinct (schema, call sequence)",
 		Floor: 20,
-		Bound: func(tier string) string { return fmt.Sprintf("all call sequences of length ≤%d over 6 schema families, every field visit order", c19Depth(tier)) },
+		Bound: func(tier string) string { return fmt.Sprintf("all call sequences of length ≤%d over 8 schema families, every field visit order", c19Depth(tier)) },
 		Assumptions: []string{"mutating callbacks only write through the pointer they are given"},
 		Items: func(tier string) []Item {
 			var items []Item
